@@ -4,7 +4,7 @@ import uuid
 from datetime import date, datetime, time, timedelta, timezone
 from decimal import Decimal
 from enum import Enum
-from typing import Dict, List, Optional, Set, Tuple
+from typing import Dict, FrozenSet, List, Optional, Set, Tuple
 
 from utype import Field, Schema, exc
 from utype.utils.encode import JSONEncoder
@@ -74,6 +74,7 @@ class RT(Schema):
     mx: Mixed = Mixed.ONE
     li: List[int] = Field(default_factory=list)
     se: Set[int] = Field(default_factory=set)
+    fz: FrozenSet[int] = Field(default_factory=frozenset)
     ses: Set[Shade] = Field(default_factory=set)
     son: Set[Optional[int]] = Field(default_factory=set)
     sd: Set[date] = Field(default_factory=set)
@@ -288,7 +289,10 @@ def containers(V):
     if k == 'list':
         roundtrip(V, 'li', lambda: list(ints), 'list')
     elif k == 'set':
-        roundtrip(V, 'se', lambda: set(ints), 'set')
+        if V.bool('frozen'):
+            roundtrip(V, 'fz', lambda: frozenset(ints), 'set')
+        else:
+            roundtrip(V, 'se', lambda: set(ints), 'set')
     elif k == 'set-of-enum':
         roundtrip(V, 'ses', lambda: {Shade.LIGHT, Shade.DARK} if n == 2 else {Shade.DARK} if n else set(), 'set')
     elif k == 'set-of-optional':
